@@ -73,7 +73,109 @@ fn sep(p: Vec<Node>) -> Vec<Node> {
     o
 }
 
+/// Laws of the property stated on the implementation alone (no model): each generated program has
+/// an expected ending that follows from the statement of C04 by itself.
+///  * PERSIST: `assign`/`capture` executed at ANY depth (inside loops / conditionals / includes that
+///    may bind the very same name) is what a read at top level sees afterwards;
+///  * SCOPED: a loop variable / include argument named like an assigned variable shadows it inside
+///    and is gone afterwards (the assigned value is visible again);
+///  * CAPTURE: `capture` prints nothing and binds exactly the text its body prints stand-alone.
+fn laws(ctx: &mut Ctx) {
+    let n = if ctx.tier_thorough { 100_000 } else { 4_000 };
+    let mut g = Gen::new(ctx.seed ^ 0x1A_0C04);
+    let names = ["a", "b", "x"];
+    let partials: Vec<PartialDef> = vec![("w".into(), Ok(vec![Node::Assign("x".into(), var("v"), vec![])])), ("q".into(), Ok(vec![text("q"), Node::Cond { c: Cond::Exist(var("x")), mode: true, thn: vec![out(var("x"))], els: None, elsif: false }]))];
+    let parser = build_parser(&partials, Policy::Eager);
+    const M: &str = "\u{27e6}E\u{27e7}";
+    for i in 0..n {
+        let x = names[g.rng.below(names.len())].to_string();
+        let mut data = Object::new();
+        if g.rng.chance(1, 2) {
+            data.insert(x.clone().into(), Value::scalar("D"));
+        }
+        // a random context of 0..3 frames around `inner`, each executing its body at least once and
+        // binding a random name (often the same one)
+        fn wrap_ctx(g: &mut Gen, names: &[&str], inner: Vec<Node>, depth: usize) -> Vec<Node> {
+            if depth == 0 {
+                return inner;
+            }
+            let n = names[g.rng.below(names.len())].to_string();
+            let body = wrap_ctx(g, names, inner, depth - 1);
+            let lo = g.rng.range(1, 3);
+            let hi = lo + g.rng.range(0, 2);
+            vec![match g.rng.below(4) {
+                0 => Node::For { x: n, rng: RangeE::Counted(lit_i(lo), lit_i(hi)), limit: None, offset: None, rev: g.rng.chance(1, 4), body, els: None },
+                1 => Node::Cond { c: Cond::Exist(Expr::Lit(Value::scalar(true))), mode: true, thn: body, els: None, elsif: false },
+                2 => Node::TableRow { x: n, rng: RangeE::Counted(lit_i(lo), lit_i(hi)), cols: None, limit: None, offset: None, body },
+                _ => Node::For { x: "i".into(), rng: RangeE::Counted(lit_i(1), lit_i(1)), limit: None, offset: None, rev: false, body, els: None },
+            }]
+        }
+        let depth = g.rng.below(4);
+        let (kind, t, expect): (&str, Vec<Node>, String) = match i % 3 {
+            0 => {
+                // PERSIST: the value assigned last is what the top level reads
+                let val = g.rng.range(1, 4);
+                let assign = match g.rng.below(4) {
+                    0 => Node::Capture(x.clone(), vec![text(&val.to_string())]),
+                    1 => Node::Include(lit_s("w"), vec![("v".into(), lit_i(val))]),
+                    _ => Node::Assign(x.clone(), lit_i(val), vec![]),
+                };
+                let assign = if matches!(assign, Node::Include(..)) && x != "x" { Node::Assign(x.clone(), lit_i(val), vec![]) } else { assign };
+                let mut t = vec![];
+                if g.rng.chance(1, 3) {
+                    t.push(Node::Incr(x.clone()));
+                }
+                t.extend(wrap_ctx(&mut g, &names, vec![assign], depth));
+                t.push(text(M));
+                t.push(out(var(&x)));
+                ("PERSIST", t, val.to_string())
+            }
+            1 => {
+                // SCOPED: inside the frame the bound value, afterwards the assigned one again
+                let mut t = vec![Node::Assign(x.clone(), lit_s("G"), vec![])];
+                let inner = vec![out(var(&x))];
+                let lo = g.rng.range(1, 3);
+                let frame = match g.rng.below(3) {
+                    0 => Node::For { x: x.clone(), rng: RangeE::Counted(lit_i(lo), lit_i(lo + 1)), limit: None, offset: None, rev: false, body: wrap_ctx(&mut g, &["i", "j"], inner, depth.min(2)), els: None },
+                    1 => Node::Include(lit_s("q"), vec![("x".into(), lit_i(lo))]),
+                    _ => Node::Render(lit_s("q"), RForm::Plain, vec![("x".into(), lit_i(lo))]),
+                };
+                t.push(frame);
+                t.push(text(M));
+                t.push(out(var(&x)));
+                ("SCOPED", t, "G".to_string())
+            }
+            _ => {
+                // CAPTURE: the captured text is what the body prints on its own
+                g.guarded = true;
+                g.no_counters = true;
+                let body = g.body(2, 3);
+                g.guarded = false;
+                g.no_counters = false;
+                let alone = render_text(&parser, &src_tmpl(&body), &data);
+                let mut t = vec![Node::Capture(x.clone(), body)];
+                t.push(text(M));
+                t.push(out(var(&x)));
+                match alone {
+                    Obs::Ok(s) => ("CAPTURE", t, s),
+                    _ => ("law-skip", t, String::new()),
+                }
+            }
+        };
+        let obs = render_text(&parser, &src_tmpl(&t), &data);
+        let ok = match (&obs, kind) {
+            (_, "law-skip") => true,
+            (Obs::Ok(s), "CAPTURE") => s.starts_with(M) && s[M.len()..] == expect,
+            (Obs::Ok(s), _) => s.rfind(M).map(|p| s[p + M.len()..] == expect).unwrap_or(false),
+            _ => false,
+        };
+        let k = if ok { "law".to_string() } else { format!("{}:want={}", kind, crate::proto::hex(&expect)) };
+        ctx.emit(render_case("c04", &k, &t, &data, &partials, &obs));
+    }
+}
+
 pub fn run(ctx: &mut Ctx) {
+    laws(ctx);
     let partial: Vec<Node> = vec![text("["), out(var("a")), Node::Assign("a".into(), lit_i(9), vec![]), Node::Incr("b".into()), text("]")];
     let partials: Vec<PartialDef> = vec![("p".into(), Ok(partial))];
     let parser = build_parser(&partials, Policy::Eager);
